@@ -317,8 +317,11 @@ fn parse_size(size: &str) -> Result<i64, ()> {
 
         size.parse::<i64>().map_err(|_| ())
     } else {
-        let last_char = size.chars().last().unwrap().to_ascii_uppercase();
-        let number: i64 = size[0..size.len() - 1].parse().map_err(|_| ())?;
+        let last_char = size.chars().last().unwrap();
+        let number: i64 = size[0..size.len() - last_char.len_utf8()]
+            .parse()
+            .map_err(|_| ())?;
+        let last_char = last_char.to_ascii_uppercase();
 
         match last_char {
             'K' => Ok(number * 1024),
